@@ -22,24 +22,42 @@ RULE = ("One collector (garbage_collect with grace 1 h or 10 h) + 1-2 transactio
         "race, or rolling back) on local and conditional-write S3. A transaction may have done its append_data BEFORE the run (long-running load): its data "
         "file is then aged 2 h, i.e. older than the grace period when it commits; a SLOW committer has every data file, manifest and manifest list it "
         "completes before the collector's first step aged 2 h right after writing it (a stall longer than the grace period, shorter than the 24 h marker timeout, between any write and the commit point); "
+        "optionally the collector runs TWICE in a row (a periodic collector) while the long-open transaction's markers are as old as its files; "
         "the base may hold a two-file manifest so that delete_files rewrites it; on object storage a transaction's pointer PUT may time out on every attempt while "
         "the first request lands after everybody has finished (ambiguous outcome that turns out committed). Grace is never 0. Interleavings are owned by the deterministic scheduler: exhaustive single-preemption enumeration for "
         "fixed scenarios and Hypothesis PCT schedules (<=3 change points) over generated ones. Oracle when all actors have finished: every file of every "
         "snapshot in the final metadata exists and verifies (independent reader), and the rows of every acknowledged transaction are readable; a collector "
         "raising GarbageCollectionAborted is acceptable. Non-trivial: the collector's metadata read, marker read and listings did not all fall on the same "
         "side of a transaction's pointer flip. distinct = (scenario, schedule).")
-ASSUMPTIONS = ["orphans planted for the collector are 2 h old; in-flight markers are fresh", "the collector and the transactions use separate handles"]
+ASSUMPTIONS = ["orphans planted for the collector are 2 h old; in-flight markers are fresh, or 2 h old (older than the grace period, far younger than the 24 h timeout) for slow / long-open transactions", "the collector and the transactions use separate handles"]
 REQUIRED_LABELS = {"quick": ["gc-straddles-flip", "preaged-file", "world:s3cas"], "thorough": ["gc-straddles-flip"]}
 
 
-def _age_new_data(world, before, seconds):
+def _age_new_data(world, before, seconds, markers=False):
     now_files = set(world.fs().list("data"))
-    for rel in now_files - before:
+    extra = []
+    if markers:
+        # the transaction has been open for that long: its in-flight markers are as old as its files (still far younger than 24 h)
+        try:
+            extra = world.fs().list("metadata/inflight")
+        except Exception:
+            extra = []
+    for rel in list(now_files - before) + extra:
         if world.kind == "local":
             t = time.time() - seconds
             os.utime(os.path.join(world.root, rel), (t, t))
         else:
             world.fake.age(seconds, world.key_prefix + "/" + rel)
+
+
+def _slow_listing(world):
+    # everything a slow committer leaves behind before its commit point: data files, manifests / lists AND its in-flight markers
+    out = world.fs().list("data") + world.fs().list("metadata/manifests")
+    try:
+        out += world.fs().list("metadata/inflight")
+    except Exception:
+        pass
+    return out
 
 
 def run_case(case):
@@ -74,7 +92,7 @@ def run_case(case):
         marks = {"meta": None, "markers": None, "list": []}
         expected_rows = {}
 
-        seen_files = set(world.fs().list("data") + world.fs().list("metadata/manifests")) if sc.get("slow") else None
+        seen_files = set(_slow_listing(world)) if sc.get("slow") else None
         gc_started = [False]
 
         # 'late' transactions (object storage): every attempt of their pointer PUT times out on the client side, but the FIRST
@@ -94,7 +112,7 @@ def run_case(case):
                 # a SLOW committer: every data file / manifest / manifest list it completes BEFORE the collector starts is already
                 # 2 h old (older than the grace period, younger than the 24 h marker timeout) by the time it takes its next step.
                 # Files written after the collector has started stay fresh ('the grace period exceeds the duration of the run').
-                now = set(world.fs().list("data") + world.fs().list("metadata/manifests"))
+                now = set(_slow_listing(world))
                 for rel in now - seen_files:
                     if rel.rsplit("/", 1)[-1].startswith(".tmp"):
                         now.discard(rel)  # not a complete file yet: aged once it has its final name
@@ -125,10 +143,14 @@ def run_case(case):
             def gc():
                 from datashard import GarbageCollectionAborted
 
-                try:
-                    return ("ok", tgc.garbage_collect(grace_period_ms=grace))
-                except GarbageCollectionAborted as e:
-                    return ("aborted", str(e)[:80])
+                r = None
+                for _ in range(2 if sc.get("gc_twice") else 1):
+                    # a periodic collector: the second run sees whatever the first one left (and removed)
+                    try:
+                        r = ("ok", tgc.garbage_collect(grace_period_ms=grace))
+                    except GarbageCollectionAborted as e:
+                        r = ("aborted", str(e)[:80])
+                return r
 
             actors.append(("gc", gc))
             for i, txs in enumerate(sc["txs"]):
@@ -144,7 +166,7 @@ def run_case(case):
                         tx.append_data(rows)
                         if kind == "multi":
                             tx.append_data([{"k": 900 + i, "s": f"t{i}b"}])
-                        _age_new_data(w, before, 7200)
+                        _age_new_data(w, before, 7200, markers=bool(sc.get("gc_twice")))
 
                     def f(tx=tx, pre=pre, rows=rows, kind=kind, i=i, end=txs.get("end", "commit")):
                         if not pre:
@@ -180,7 +202,7 @@ def run_case(case):
             except Exception:
                 out["labels"].append("late-pointer-write-rejected")
         out["labels"] += [f"world:{sc['world']}"] + (["preaged-file"] if any(t.get("preaged") for t in sc["txs"]) else [])
-        out["labels"] += (["slow-committer"] if sc.get("slow") else []) + (["partial-manifest-delete"] if sc.get("multi_base") and any(t["op"] == "delete" for t in sc["txs"]) else [])
+        out["labels"] += (["slow-committer"] if sc.get("slow") else []) + (["collector-runs-twice"] if sc.get("gc_twice") else []) + (["partial-manifest-delete"] if sc.get("multi_base") and any(t["op"] == "delete" for t in sc["txs"]) else [])
         if run.error is not None:
             out["violations"].append((f"scheduler/{type(run.error).__name__}", str(run.error)[:200]))
             return out
@@ -225,6 +247,8 @@ FIXED = [
     {"world": "local", "nprior": 1, "multi_base": True, "slow": True, "txs": [{"op": "delete", "which": 1}]},
     {"world": "local", "nprior": 1, "slow": True, "txs": [{"op": "multi"}, {"op": "append"}]},
     {"world": "s3cas", "nprior": 1, "txs": [{"op": "append", "preaged": True, "late": True}]},
+    {"world": "local", "nprior": 1, "gc_twice": True, "txs": [{"op": "multi", "preaged": True}]},
+    {"world": "s3cas", "nprior": 1, "gc_twice": True, "slow": True, "txs": [{"op": "append"}]},
 ]
 
 
@@ -264,7 +288,7 @@ def pct_case(draw):
     order = draw(st.permutations(list(range(n))))
     pre = [[draw(st.integers(1, 200)), draw(st.integers(0, n - 1))] for _ in range(draw(st.integers(0, 3)))]
     return {"kind": "sched", "sc": {"world": world, "nprior": draw(st.integers(1, 3)), "txs": txs, "grace_ms": draw(st.sampled_from([3600000, 36000000])),
-                                    "multi_base": draw(st.booleans()), "slow": draw(st.booleans())},
+                                    "multi_base": draw(st.booleans()), "slow": draw(st.booleans()), **({"gc_twice": True} if draw(st.integers(0, 2)) == 0 else {})},
             "schedule": {"order": list(order), "preempt": sorted(pre)}, "seed": draw(st.integers(0, 3))}
 
 
